@@ -64,7 +64,15 @@ class MultiAgentProblemsConverter:
             combined_problem.goal_state_predicates = list(
                 set(combined_problem.goal_state_predicates)
             )
-            combined_problem.goal_state_fluents.update(agent_problem.goal_state_fluents)
+            # numeric goals are expression trees (compared by identity), so the same goal that
+            # appears in several agents' files is recognized by its PDDL text.
+            combined_numeric_goals = {
+                goal.to_pddl() for goal in combined_problem.goal_state_fluents
+            }
+            for numeric_goal in agent_problem.goal_state_fluents:
+                if numeric_goal.to_pddl() not in combined_numeric_goals:
+                    combined_problem.goal_state_fluents.add(numeric_goal)
+                    combined_numeric_goals.add(numeric_goal.to_pddl())
 
         return combined_problem
 
